@@ -205,6 +205,8 @@ def mismatched(cfg, param):
         if cfg["size"] == 1:
             c["size"] = 2
         c["order"] = ">" if cfg["order"] == "<" else "<"
+        if c["cplx"] and c["kind"] == "f":
+            c["form"] = "struct"  # a numpy complex dtype loses its byte order in DigitalRFWriter (see strategies.rf_configs)
     elif param == "S":
         c["S"] = cfg["S"] * 2
     elif param == "F":
@@ -379,15 +381,15 @@ def _read_check(cfg, tops, definite, maybe, windows, fail, si, open_win=None):
         with rfharness.quiet_fds():
             blocks = rd.get_continuous_blocks(a, end, "ch0")
         for k, ln in blocks.items():
-            k = int(k)
-            if ln > 4 * 10 ** 6:
-                continue
-            with rfharness.quiet_fds():
-                d = rd.read(k, k + int(ln) - 1, "ch0")
-            for kk, arr in d.items():
-                raw = np.ascontiguousarray(arr).astype(sd, copy=False).tobytes()
-                for i in range(arr.shape[0]):
-                    got[int(kk) + i] = raw[i * nb:(i + 1) * nb]
+            k, ln = int(k), int(ln)
+            for c0 in range(k, k + ln, 1 << 18):  # long blocks are read in pieces
+                c1 = min(k + ln, c0 + (1 << 18)) - 1
+                with rfharness.quiet_fds():
+                    d = rd.read(c0, c1, "ch0")
+                for kk, arr in d.items():
+                    raw = np.ascontiguousarray(arr).astype(sd, copy=False).tobytes()
+                    for i in range(arr.shape[0]):
+                        got[int(kk) + i] = raw[i * nb:(i + 1) * nb]
         missing = [k for k in definite if k not in got and not (open_win and open_win[0] <= k < open_win[1])]
         if missing:
             fail("union-read-missing-sample", "step %d: %d written samples not returned, first %d" % (si, len(missing), min(missing)))
